@@ -451,6 +451,12 @@ def default_of(ip, ty, c=None):
         return MapV(t.split('<')[0].lower())
     if t == '()':
         return unit()
+    if t.startswith('Arc<') or t.startswith('Rc<') or t.startswith('Box<'):
+        return Ptr(Cell(default_of(ip, t[t.index('<') + 1:-1], c), 'heap'), ())
+    m = re.match(r'^Atomic(Bool|U8|U16|U32|U64|Usize|I32|I64)$', t)
+    if m:
+        w = {'Bool': 1, 'U8': 8, 'U16': 16, 'U32': 32, 'U64': 64, 'Usize': 64, 'I32': 32, 'I64': 64}[m.group(1)]
+        return Agg([BV(w, 0)], 'Atomic')
     cands = ip.prog.lookup('<%s as Default>::default' % ty)
     if cands:
         return ip.call_function(cands[0], [])
